@@ -75,6 +75,7 @@ package v2
 //@ func (CreateCollectionRequest).Validate
 //@   property C16 C18
 //@   safety -overflow
+//@   pure
 //@   ensures result == nil ==> len(req.Id) >= 3 && len(req.Id) <= 24 && forall(k, 0, len(req.Id), idChar(req.Id[k]))
 //@   ensures result == nil ==> callres(Validate, 1, 0) == nil
 //@   loop 1 invariant rangepos() >= 0 && rangepos() <= len(req.Id) && forall(k, 0, rangepos(), idChar(req.Id[k]))
